@@ -1,2 +1,508 @@
-(* Model for C06 — to be written. Executable definitions only, no proofs. *)
-From WI Require Import Lib.Base Lib.Info.
+(* Model for C06 — the multi-entry container parsers of internal/file/parsers.go
+   (SSHAuthorizedKeys, SSHKnownHosts, PEMFile + skipToPEMBlock, JavaKeystore, JCEKeystore),
+   internal/file/jks.go (parseJKSEntry) and the byte-level reader of
+   github.com/edutko/jks-go v0.4.1 keystore/jks.go (readJKSHeader, readJKSEntries, readMAC).
+   Executable definitions only, no proofs.
+
+   Library calls that are not modelled byte for byte are parameters (Section variables):
+     lib       one chunk of an SSH file -> what ssh.ParseAuthorizedKey / ssh.ParseKnownHosts
+               makes of it, already rendered by sshPublicKeyAttributes / sshKnownHostsKeyAttributes
+     dec       encoding/pem.Decode
+     describe  parsePEMBlock
+     secret    java.UnmarshalReader on a SealedObject + asn1.Unmarshal of its parameters
+     cert_info parseCertificate,  enc_name  keystore.Entry.EncryptionAlgorithm().Name
+   The harness records their answers per case. *)
+From WI Require Import Lib.Base Lib.Info Lib.Strings Lib.Time.
+Open Scope N_scope.
+
+(* ------------------------------------------------------------------ *)
+(* bytes.TrimSpace (go1.23.5 bytes/bytes.go): leading and trailing white space as
+   defined by Unicode is removed.  unicode.IsSpace holds for U+0009..U+000D, U+0020,
+   U+0085, U+00A0, U+1680, U+2000..U+200A, U+2028, U+2029, U+202F, U+205F, U+3000.
+   utf8.DecodeRune / DecodeLastRune return one of these exactly when the slice starts /
+   ends with its (shortest-form) UTF-8 encoding; anything else (including invalid
+   UTF-8, decoded as RuneError) stops the trimming. *)
+Definition is_sp1 (a : N) : bool := (a =? 32) || ((9 <=? a) && (a <=? 13)).
+Definition is_sp2 (a b : N) : bool := (a =? 194) && ((b =? 133) || (b =? 160)).
+Definition is_sp3 (a b c : N) : bool :=
+  ((a =? 225) && (b =? 154) && (c =? 128)) ||
+  ((a =? 226) && (b =? 128) && (((128 <=? c) && (c <=? 138)) || (c =? 168) || (c =? 169) || (c =? 175))) ||
+  ((a =? 226) && (b =? 129) && (c =? 159)) ||
+  ((a =? 227) && (b =? 128) && (c =? 128)).
+
+(* TrimLeftFunc(s, unicode.IsSpace) *)
+Fixpoint trim_left_sp (l : bytes) : bytes :=
+  match l with
+  | [] => []
+  | a :: r1 =>
+      if is_sp1 a then trim_left_sp r1 else
+      match r1 with
+      | b :: r2 =>
+          if is_sp2 a b then trim_left_sp r2 else
+          match r2 with
+          | c :: r3 => if is_sp3 a b c then trim_left_sp r3 else l
+          | [] => l
+          end
+      | [] => l
+      end
+  end.
+
+(* TrimRightFunc, on the reversed slice (bytes of a sequence arrive last byte first) *)
+Fixpoint trim_left_rev (l : bytes) : bytes :=
+  match l with
+  | [] => []
+  | c :: r1 =>
+      if is_sp1 c then trim_left_rev r1 else
+      match r1 with
+      | b :: r2 =>
+          if is_sp2 b c then trim_left_rev r2 else
+          match r2 with
+          | a :: r3 => if is_sp3 a b c then trim_left_rev r3 else l
+          | [] => l
+          end
+      | [] => l
+      end
+  end.
+
+Definition trim_space (l : bytes) : bytes := rev (trim_left_rev (rev (trim_left_sp l))).
+
+(* in[:bytes.IndexByte(in, c)], the whole slice when c does not occur *)
+Fixpoint cut_at (c : N) (l : bytes) : bytes :=
+  match l with
+  | [] => []
+  | x :: r => if x =? c then [] else x :: cut_at c r
+  end.
+
+(* bytes.Split(data, "\n"): n+1 pieces for n separators *)
+Fixpoint split_lf (l : bytes) : list bytes :=
+  match l with
+  | [] => [[]]
+  | c :: r =>
+      match split_lf r with
+      | [] => [[]]
+      | h :: t => if c =? 10 then [] :: h :: t else (c :: h) :: t
+      end
+  end.
+
+(* ------------------------------------------------------------------ *)
+(* SSHAuthorizedKeys / SSHKnownHosts  (parsers.go) *)
+
+Definition ssh_key_desc : bytes := bs "SSH public key".
+Definition attrs := list (bytes * bytes).
+
+(* sshLineIsBlankOrComment (after the F15 repair): the part of the chunk the x/crypto/ssh
+   line parsers look at — up to the first CR, white space trimmed — is empty or starts
+   with '#' *)
+Definition ssh_skip (l : bytes) : bool :=
+  match trim_space (cut_at 13 l) with
+  | [] => true
+  | x :: _ => x =? 35
+  end.
+
+(* what the code did before the repair *)
+Definition ssh_skip_pre_auth (l : bytes) : bool := false.                 (* every chunk went to the library *)
+Definition ssh_skip_pre_hosts (l : bytes) : bool :=                       (* len(bytes.TrimSpace(l)) == 0 *)
+  match trim_space l with [] => true | _ => false end.
+
+Section SshFile.
+  Variable skip : bytes -> bool.
+  Variable lib : bytes -> result attrs.
+
+  (* the loop over the chunks: the first chunk the library rejects fails the whole file *)
+  Fixpoint ssh_lines (ls : list bytes) : result (list info) :=
+    match ls with
+    | [] => Ok []
+    | l :: r =>
+        if skip l then ssh_lines r
+        else match lib l with
+             | Ok a =>
+                 match ssh_lines r with
+                 | Ok k => Ok (Info ssh_key_desc a [] :: k)
+                 | Err e => Err e
+                 | Panic e => Panic e
+                 end
+             | Err e => Err e
+             | Panic e => Panic e
+             end
+    end.
+
+  Definition ssh_file (desc data : bytes) : result info :=
+    match ssh_lines (split_lf data) with
+    | Ok k => Ok (Info desc [] k)
+    | Err e => Err e
+    | Panic e => Panic e
+    end.
+End SshFile.
+
+Definition authorized_keys (lib : bytes -> result attrs) (data : bytes) : result info :=
+  ssh_file ssh_skip lib (bs "SSH authorized_keys") data.
+Definition known_hosts (lib : bytes -> result attrs) (data : bytes) : result info :=
+  ssh_file ssh_skip lib (bs "SSH known_hosts") data.
+Definition authorized_keys_pre (lib : bytes -> result attrs) (data : bytes) : result info :=
+  ssh_file ssh_skip_pre_auth lib (bs "SSH authorized_keys") data.
+Definition known_hosts_pre (lib : bytes -> result attrs) (data : bytes) : result info :=
+  ssh_file ssh_skip_pre_hosts lib (bs "SSH known_hosts") data.
+
+(* ------------------------------------------------------------------ *)
+(* PEMFile + skipToPEMBlock  (parsers.go) *)
+
+Record pblock := mkpblock { pb_type : bytes; pb_bytes : bytes }.
+
+Definition pem_begin : bytes := bs "-----BEGIN ".
+
+(* skipToPEMBlock: data[bytes.Index(data, "-----BEGIN "):], nil when there is none *)
+Definition skip_to_pem (data : bytes) : bytes :=
+  match index_of pem_begin data with
+  | Some k => drop k data
+  | None => []
+  end.
+
+Definition is_pgp_type (t : bytes) : bool := prefix_of (bs "PGP ") t.
+
+Section PemFile.
+  Variable dec : bytes -> option (pblock * bytes).     (* pem.Decode: block and rest, None for (nil, data) *)
+  Variable describe : pblock -> result info.           (* parsePEMBlock *)
+
+  (* the for loop of PEMFile; fuel: pem.Decode returns a strictly shorter rest *)
+  Fixpoint pem_loop (fuel : nat) (rest : bytes) : result (list info) :=
+    match rest with
+    | [] => Ok []
+    | _ :: _ =>
+        match fuel with
+        | O => Err "fuel"
+        | S f =>
+            match dec rest with
+            | None => Ok []
+            | Some (b, rest') =>
+                if is_pgp_type (pb_type b) then pem_loop f (skip_to_pem rest')
+                else match describe b with
+                     | Ok i =>
+                         match pem_loop f (skip_to_pem rest') with
+                         | Ok k => Ok (i :: k)
+                         | Err e => Err e
+                         | Panic e => Panic e
+                         end
+                     | Err e => Err e
+                     | Panic e => Panic e
+                     end
+            end
+        end
+    end.
+
+  Definition pem_file (data : bytes) : result info :=
+    match pem_loop (S (length data)) (skip_to_pem data) with
+    | Ok [] => Err "no valid PEM blocks"
+    | Ok [i] => Ok i                                   (* exactly one block: the file is that block *)
+    | Ok k => Ok (Info (bs "multiple PEM blocks") [] k)
+    | Err e => Err e
+    | Panic e => Panic e
+    end.
+End PemFile.
+
+(* ------------------------------------------------------------------ *)
+(* jks-go keystore/jks.go: the reader *)
+
+Record jcert := mkjcert { jc_type : bytes; jc_bytes : bytes }.
+Record jentry := mkjentry {
+  je_type : N;            (* the u32 as read: 1 PrivateKeyEntry, 2 trustedCertEntry, 3 SecretKeyEntry *)
+  je_alias : bytes;
+  je_date : N;            (* the u64 as read (milliseconds, two's complement) *)
+  je_key : bytes;         (* EncryptedKey.Bytes *)
+  je_seal : bytes;        (* EncryptedKey.SealAlg *)
+  je_certs : list jcert }.
+
+(* a bytes.Reader: what is left, and the absolute offset *)
+Definition rd := (bytes * N)%type.
+
+(* io.ReadFull of n bytes *)
+Definition read_n (n : N) (r : rd) : result (bytes * rd) :=
+  if N.of_nat (length (fst r)) <? n then Err "unexpected EOF"
+  else let k := N.to_nat n in Ok (take k (fst r), (drop k (fst r), snd r + n)).
+
+Definition read_u (w : N) (r : rd) : result (N * rd) :=
+  match read_n w r with
+  | Ok (b, r') => Ok (be_to_N b, r')
+  | Err e => Err e
+  | Panic e => Panic e
+  end.
+
+(* readString: u16 length, then the bytes (no modified-UTF-8 decoding: string(b)) *)
+Definition read_string (r : rd) : result (bytes * rd) :=
+  match read_u 2 r with
+  | Ok (l, r1) => read_n l r1
+  | Err e => Err e
+  | Panic e => Panic e
+  end.
+
+Section Jks.
+  (* java.UnmarshalReader(r, &sealedObject) followed by asn1.Unmarshal(so.EncodedParams, ..):
+     offset and remaining bytes -> (bytes consumed, SealAlg, EncryptedContent) *)
+  Variable secret : N -> bytes -> result (N * bytes * bytes).
+
+  (* the certificate loop; every iteration consumes at least 6 bytes *)
+  Fixpoint read_certs (fuel : nat) (count : N) (r : rd) : result (list jcert * rd) :=
+    if count =? 0 then Ok ([], r) else
+    match fuel with
+    | O => Err "fuel"
+    | S f =>
+        match read_string r with
+        | Ok (t, r1) =>
+            match read_u 4 r1 with
+            | Ok (l, r2) =>
+                match read_n l r2 with
+                | Ok (b, r3) =>
+                    match read_certs f (count - 1) r3 with
+                    | Ok (cs, r4) => Ok (mkjcert t b :: cs, r4)
+                    | Err e => Err e
+                    | Panic e => Panic e
+                    end
+                | Err e => Err e
+                | Panic e => Panic e
+                end
+            | Err e => Err e
+            | Panic e => Panic e
+            end
+        | Err e => Err e
+        | Panic e => Panic e
+        end
+    end.
+
+  (* one iteration of readJKSEntries *)
+  Definition read_entry (fuel : nat) (r : rd) : result (jentry * rd) :=
+    match read_u 4 r with
+    | Ok (typ, r1) =>
+        match read_string r1 with
+        | Ok (alias, r2) =>
+            match read_u 8 r2 with
+            | Ok (date, r3) =>
+                if typ =? 1 then
+                  match read_u 4 r3 with
+                  | Ok (l, r4) =>
+                      match read_n l r4 with
+                      | Ok (key, r5) =>
+                          match read_u 4 r5 with
+                          | Ok (cc, r6) =>
+                              match read_certs fuel cc r6 with
+                              | Ok (cs, r7) => Ok (mkjentry 1 alias date key [] cs, r7)
+                              | Err e => Err e
+                              | Panic e => Panic e
+                              end
+                          | Err e => Err e
+                          | Panic e => Panic e
+                          end
+                      | Err e => Err e
+                      | Panic e => Panic e
+                      end
+                  | Err e => Err e
+                  | Panic e => Panic e
+                  end
+                else if typ =? 2 then
+                  match read_certs fuel 1 r3 with
+                  | Ok (cs, r4) => Ok (mkjentry 2 alias date [] [] cs, r4)
+                  | Err e => Err e
+                  | Panic e => Panic e
+                  end
+                else if typ =? 3 then
+                  match secret (snd r3) (fst r3) with
+                  | Ok (n, seal, content) =>
+                      Ok (mkjentry 3 alias date content seal [], (drop (N.to_nat n) (fst r3), snd r3 + n))
+                  | Err e => Err e
+                  | Panic e => Panic e
+                  end
+                else Ok (mkjentry typ alias date [] [] [], r3)      (* entryType[typ] = "", no body *)
+            | Err e => Err e
+            | Panic e => Panic e
+            end
+        | Err e => Err e
+        | Panic e => Panic e
+        end
+    | Err e => Err e
+    | Panic e => Panic e
+    end.
+
+  (* the entry loop; every iteration consumes at least 14 bytes *)
+  Fixpoint read_entries (fuel : nat) (count : N) (r : rd) : result (list jentry * rd) :=
+    if count =? 0 then Ok ([], r) else
+    match fuel with
+    | O => Err "fuel"
+    | S f =>
+        match read_entry (S (length (fst r))) r with
+        | Ok (e, r1) =>
+            match read_entries f (count - 1) r1 with
+            | Ok (es, r2) => Ok (e :: es, r2)
+            | Err e => Err e
+            | Panic e => Panic e
+            end
+        | Err e => Err e
+        | Panic e => Panic e
+        end
+    end.
+
+  Definition jks_magic : bytes := [254; 237; 254; 237].
+  Definition jceks_magic : bytes := [206; 206; 206; 206].
+
+  (* keystore.InsecureParse for the two magics (detectFormat; header; entries; MAC; nothing after) *)
+  Definition jks_parse (data : bytes) : result (list jentry) :=
+    if Nat.ltb (length data) 4 then Panic "keystore.go:detectFormat data[:4]"
+    else if prefix_of jks_magic data || prefix_of jceks_magic data then
+      match read_n 12 (data, 0) with
+      | Ok (hdr, r1) =>
+          match read_entries (S (length data)) (be_to_N (drop 8 hdr)) r1 with
+          | Ok (es, r2) =>
+              match read_n 20 r2 with
+              | Ok (_, r3) =>
+                  match fst r3 with
+                  | [] => Ok es
+                  | _ :: _ => Err "possible corruption: unexpected data after MAC"
+                  end
+              | Err e => Err e
+              | Panic e => Panic e
+              end
+          | Err e => Err e
+          | Panic e => Panic e
+          end
+      | Err e => Err e
+      | Panic e => Panic e
+      end
+    else Err "not modelled: PKCS12 / unknown keystore format".
+End Jks.
+
+(* ------------------------------------------------------------------ *)
+(* internal/file/jks.go parseJKSEntry; parsers.go JavaKeystore / JCEKeystore *)
+
+Definition entry_type_name (t : N) : bytes :=
+  if t =? 1 then bs "PrivateKeyEntry" else if t =? 2 then bs "trustedCertEntry"
+  else if t =? 3 then bs "SecretKeyEntry" else [].
+
+(* int64(binary.BigEndian.Uint64(b)) milliseconds -> time.UnixMilli -> whole seconds (floor) *)
+Definition jks_date_sec (u : N) : Z :=
+  let s := if u <? 9223372036854775808 then Z.of_N u else (Z.of_N u - 18446744073709551616)%Z in
+  (s / 1000)%Z.
+Definition jks_date (u : N) : bytes := fmt_rfc3339 (jks_date_sec u) 0.   (* .UTC().Format("2006-01-02T15:04:05Z07:00") *)
+
+(* the placeholder child for an X.509 certificate that does not parse (after the repair) *)
+Definition unparsable_cert : info := Info (bs "X.509 certificate (unparsable)") [] [].
+
+Section JksDescribe.
+  Variable cert_info : bytes -> result info.          (* parseCertificate *)
+  Variable enc_name : bytes -> bytes -> bytes.        (* key bytes, SealAlg -> EncryptionAlgorithm().Name *)
+  Variable keep_bad : bool.                           (* true: the repaired code; false: `continue` dropped the child *)
+
+  Fixpoint cert_children (cs : list jcert) : result (list info) :=
+    match cs with
+    | [] => Ok []
+    | c :: r =>
+        if bytes_eqb (map to_upper_ascii (jc_type c)) (bs "X.509") then
+          match cert_info (jc_bytes c) with
+          | Ok i => match cert_children r with Ok k => Ok (i :: k) | Err e => Err e | Panic e => Panic e end
+          | Err _ =>
+              if keep_bad
+              then match cert_children r with Ok k => Ok (unparsable_cert :: k) | Err e => Err e | Panic e => Panic e end
+              else cert_children r
+          | Panic e => Panic e
+          end
+        else match cert_children r with
+             | Ok k => Ok (Info (jc_type c ++ bs " certificate") [] [] :: k)
+             | Err e => Err e
+             | Panic e => Panic e
+             end
+    end.
+
+  Definition key_child (e : jentry) : list info :=
+    let a := match enc_name (je_key e) (je_seal e) with [] => [] | n => [(bs "Encryption", n)] end in
+    if je_type e =? 1 then [Info (bs "Private key (encrypted)") a []]
+    else if je_type e =? 3 then [Info (bs "Symmetric key or password (encrypted)") a []]
+    else [].
+
+  Definition jks_entry_info (e : jentry) : result info :=
+    match cert_children (je_certs e) with
+    | Ok k =>
+        Ok (Info (je_alias e ++ bs " (" ++ entry_type_name (je_type e) ++ bs ")")
+                 [(bs "Date", jks_date (je_date e))]
+                 (k ++ key_child e))
+    | Err e => Err e
+    | Panic e => Panic e
+    end.
+
+  Fixpoint jks_entries_info (es : list jentry) : result (list info) :=
+    match es with
+    | [] => Ok []
+    | e :: r =>
+        match jks_entry_info e with
+        | Ok i => match jks_entries_info r with Ok k => Ok (i :: k) | Err x => Err x | Panic x => Panic x end
+        | Err x => Err x
+        | Panic x => Panic x
+        end
+    end.
+
+  Variable secret : N -> bytes -> result (N * bytes * bytes).
+
+  (* JavaKeystore / JCEKeystore: same body, different description *)
+  Definition keystore_file (desc data : bytes) : result info :=
+    match jks_parse secret data with
+    | Ok es =>
+        match jks_entries_info es with
+        | Ok k => Ok (Info desc [] k)
+        | Err e => Err e
+        | Panic e => Panic e
+        end
+    | Err e => Err e
+    | Panic e => Panic e
+    end.
+End JksDescribe.
+
+Definition jks_desc : bytes := bs "Java Keystore (JKS)".
+Definition jceks_desc : bytes := bs "Java Keystore (JCEKS)".
+
+(* ------------------------------------------------------------------ *)
+(* how entries are written down: layouts and their rendering *)
+
+(* SSH files: lines *)
+Inductive item : Type :=
+| IEntry (line : bytes)
+| IBlank (ws : bytes)
+| IComment (ws text : bytes).           (* ws # text *)
+
+Definition item_line (it : item) : bytes :=
+  match it with
+  | IEntry l => l
+  | IBlank w => w
+  | IComment w t => w ++ 35 :: t
+  end.
+
+Fixpoint entries_of (its : list item) : list bytes :=
+  match its with
+  | [] => []
+  | IEntry l :: r => l :: entries_of r
+  | _ :: r => entries_of r
+  end.
+
+Inductive line_ending := LF | CRLF.
+Definition le_bytes (le : line_ending) : bytes := match le with LF => [10] | CRLF => [13; 10] end.
+
+(* trail: number of line endings after the last line (0: none, 1: the usual one, 2: an empty last line) *)
+Fixpoint render_lines (ls : list bytes) (le : line_ending) (trail : nat) : bytes :=
+  match ls with
+  | [] => []
+  | [l] => l ++ concat (repeat (le_bytes le) trail)
+  | l :: r => l ++ le_bytes le ++ render_lines r le trail
+  end.
+Definition render (its : list item) (le : line_ending) (trail : nat) : bytes :=
+  render_lines (map item_line its) le trail.
+
+(* keystores: the writer (java.security.KeyStore JKS / JCEKS stream format) *)
+Definition enc_string (s : bytes) : bytes := N_to_be 2 (N.of_nat (length s)) ++ s.
+Definition enc_cert (c : jcert) : bytes :=
+  enc_string (jc_type c) ++ N_to_be 4 (N.of_nat (length (jc_bytes c))) ++ jc_bytes c.
+(* an entry with, for a SecretKeyEntry, the serialised SealedObject that stands for it *)
+Definition enc_entry (eb : jentry * bytes) : bytes :=
+  let e := fst eb in
+  N_to_be 4 (je_type e) ++ enc_string (je_alias e) ++ N_to_be 8 (je_date e) ++
+  (if je_type e =? 1 then
+     N_to_be 4 (N.of_nat (length (je_key e))) ++ je_key e ++
+     N_to_be 4 (N.of_nat (length (je_certs e))) ++ concat (map enc_cert (je_certs e))
+   else if je_type e =? 2 then concat (map enc_cert (je_certs e))
+   else if je_type e =? 3 then snd eb
+   else []).
+Definition jks_encode (magic : bytes) (version : N) (ebs : list (jentry * bytes)) (mac : bytes) : bytes :=
+  magic ++ N_to_be 4 version ++ N_to_be 4 (N.of_nat (length ebs)) ++ concat (map enc_entry ebs) ++ mac.
